@@ -10,6 +10,7 @@ import (
 	"encoding/json"
 	"fmt"
 	"math/rand"
+	"os"
 	"runtime"
 	"strconv"
 	"strings"
@@ -67,11 +68,9 @@ func cmdVisStress(c Cmd) (interface{}, error) {
 				out = append(out, e)
 			}
 		}
-		if len(out) > 80 {
-			out = out[len(out)-80:]
-		}
 		return out
 	}
+	diag := c.str("diag")
 	verifhook.Set(func(point string, kv ...any) {
 		if point == "q.pull.check" {
 			return
@@ -84,6 +83,7 @@ func cmdVisStress(c Cmd) (interface{}, error) {
 			sk = sk[i+7:]
 		}
 		ring = append(ring, fmt.Sprintf("%d %s qid=%v seg=%s n=%v blk=%v", ringSeq, point, m["qid"], sk, m["n"], m["blk"]))
+		_ = diag
 		if len(ring) > 3000 {
 			ring = ring[1000:]
 		}
@@ -245,7 +245,15 @@ func cmdVisStress(c Cmd) (interface{}, error) {
 							again = "immediately repeated query: " + k2 + " " + w2
 						})
 					}
-					addFail(k, form, fmt.Sprintf("index %s lo=%d hi=%d flushes=%d rotations=%d qid=%d: %s [%s] events during the query: %v", s.name, lo, hi, s.flushes.Load(), s.rotation.Load(), qid, w, again, ringSince(seq0-6)))
+					evs := ringSince(seq0 - 6)
+					if diag != "" {
+						hb, _ := json.Marshal(resp.Hits.Hits)
+						_ = os.WriteFile(fmt.Sprintf("%s/fail-%d.txt", diag, qid), []byte(fmt.Sprintf("%s %s lo=%d hi=%d qid=%d %s\n%s\n\nHITS %s\n", k, form, lo, hi, qid, w, strings.Join(evs, "\n"), hb)), 0644)
+					}
+					if len(evs) > 80 {
+						evs = evs[:80]
+					}
+					addFail(k, form, fmt.Sprintf("index %s lo=%d hi=%d flushes=%d rotations=%d qid=%d: %s [%s] events during the query: %v", s.name, lo, hi, s.flushes.Load(), s.rotation.Load(), qid, w, again, evs))
 				})
 			}
 		}(rand.New(rand.NewSource(seed*23 + int64(qi))))
